@@ -137,6 +137,14 @@ func readBackType(t *rapid.T) gen.TypeSpec {
 		ts.Attrs = gen.AllKindAttrs()
 	}
 
+	// Siblings: a second attribute of the same nullable kind, so that one
+	// pointer value can be stored in two fields.
+	for _, a := range append([]jsonapi.Attr{}, ts.Attrs...) {
+		if a.Nullable && rapid.Bool().Draw(t, "sibling") {
+			ts.Attrs = append(ts.Attrs, jsonapi.Attr{Name: a.Name + "sib", Type: a.Type, Nullable: true})
+		}
+	}
+
 	return ts
 }
 
@@ -197,6 +205,34 @@ func TestC17ReadBack(t *testing.T) {
 				sets++
 
 				do(fmt.Sprintf("Set(%q, %s)", a.Name, gen.Show(v)), func(res jsonapi.Resource) { res.Set(a.Name, gen.Clone(v)) })
+			},
+			"SetSamePointerTwice": func(t *rapid.T) {
+				// One pointer value stored in an attribute and in its sibling
+				// (per resource); a later Set of one must not change the other.
+				pairs := [][2]jsonapi.Attr{}
+
+				for _, a := range ts.Attrs {
+					if sib, ok := ts.Attr(a.Name + "sib"); ok {
+						pairs = append(pairs, [2]jsonapi.Attr{a, sib})
+					}
+				}
+
+				if len(pairs) == 0 {
+					t.Skip("no sibling attributes")
+				}
+
+				pr := pairs[rapid.IntRange(0, len(pairs)-1).Draw(t, "pair")]
+				base := gen.BaseValue(t, pr[0].Type, "shared")
+				model[pr[0].Name] = gen.PtrTo(base)
+				model[pr[1].Name] = gen.PtrTo(base)
+				kinds[gen.KindName(pr[0].Type, true)] = true
+				sets += 2
+
+				do(fmt.Sprintf("p := %s; Set(%q, p); Set(%q, p)", gen.Show(gen.PtrTo(base)), pr[0].Name, pr[1].Name), func(res jsonapi.Resource) {
+					p := gen.PtrTo(gen.Clone(base))
+					res.Set(pr[0].Name, p)
+					res.Set(pr[1].Name, p)
+				})
 			},
 			"SetUntypedNil": func(t *rapid.T) {
 				nullable := []jsonapi.Attr{}
